@@ -1062,6 +1062,154 @@ fn check_sender(
     Ok(evals + all.len() as u64)
 }
 
+// ---------------------------------------------------------------------------------------
+// a long-lived router: peers learnt and forgotten between batches, senders outside the ring
+// ---------------------------------------------------------------------------------------
+
+#[derive(Clone, Debug, Hash, Serialize, Deserialize)]
+enum LifeStep {
+    /// route a batch of key indices (small key space: the same keys come back)
+    Route(Vec<u8>),
+    /// GossipRouter::update_peer(member chosen by the selector, address)
+    Learn(u16),
+    /// GossipRouter::remove_peer(member chosen by the selector)
+    Forget(u16),
+}
+
+#[derive(Clone, Debug, Hash, Serialize, Deserialize)]
+struct RouterLifeCase {
+    ids: Vec<u64>,
+    vnodes: u32,
+    rf: usize,
+    /// None = the sender is a ring member (selector); Some(id) = a node that is NOT in the ring
+    /// (just removed from it while it still holds deltas, or not added yet)
+    outsider: Option<u64>,
+    sender_sel: u16,
+    /// bit i set = member i's address is known when the router is built
+    known_mask: u16,
+    steps: Vec<LifeStep>,
+}
+
+fn router_life_case() -> impl Strategy<Value = RouterLifeCase> {
+    let step = prop_oneof![
+        5 => proptest::collection::vec(0u8..12, 1..10).prop_map(LifeStep::Route),
+        2 => any::<u16>().prop_map(LifeStep::Learn),
+        2 => any::<u16>().prop_map(LifeStep::Forget),
+    ];
+    (
+        membership(8),
+        prop_oneof![1 => Just(1u32), 2 => 2u32..=20, 2 => 21u32..=150],
+        0usize..=4,
+        prop_oneof![3 => Just(None), 1 => (1_000_000u64..1_000_100).prop_map(Some)],
+        any::<u16>(),
+        any::<u16>(),
+        proptest::collection::vec(step, 2..14),
+    )
+        .prop_map(|(ids, vnodes, rf, outsider, sender_sel, known_mask, steps)| RouterLifeCase {
+            ids,
+            vnodes,
+            rf,
+            outsider,
+            sender_sel,
+            known_mask,
+            steps,
+        })
+}
+
+/// Oracle: at every routing step, each delta goes exactly to the owners of its key
+/// (`get_replicas`), minus the sender, minus the owners whose address the router does not know AT
+/// THAT MOMENT - whatever it routed before, and whether or not the sender is a ring member.
+fn check_router_life(c: &RouterLifeCase, ctx: &mut CaseCtx<'_>) -> Result<(), String> {
+    let ids = dedup(c.ids.clone());
+    let n = ids.len();
+    if n < 2 {
+        return Ok(());
+    }
+    let ring_v = HashRing::new(rid(&ids), c.vnodes, c.rf);
+    let ring = Arc::new(RwLock::new(ring_v.clone()));
+    let sender = match c.outsider {
+        Some(x) if !ids.contains(&x) => x,
+        _ => ids[(c.sender_sel as usize * n) >> 16],
+    };
+    let member_sender = ids.contains(&sender);
+    let addr = |j: u64| format!("10.1.0.1:{}", 7000 + (j % 1000));
+    let mut known: BTreeSet<u64> = ids
+        .iter()
+        .enumerate()
+        .filter(|(i, j)| **j != sender && (c.known_mask >> (i % 16)) & 1 == 1)
+        .map(|(_, j)| *j)
+        .collect();
+    let peers: HashMap<ReplicaId, String> = known.iter().map(|&j| (ReplicaId::new(j), addr(j))).collect();
+    let mut router = GossipRouter::new(ring.clone(), ReplicaId::new(sender), peers, true);
+    let mut tag = 0u32;
+    let mut routed_before: BTreeSet<String> = BTreeSet::new();
+    let mut trace: Vec<String> = Vec::new();
+    let mut changed_since_route = false;
+    let mut evals = 0u64;
+    for st in &c.steps {
+        match st {
+            LifeStep::Learn(sel) => {
+                let j = ids[(*sel as usize * n) >> 16];
+                if j != sender {
+                    router.update_peer(ReplicaId::new(j), addr(j));
+                    if known.insert(j) {
+                        changed_since_route = true;
+                    }
+                    trace.push(format!("update_peer({})", j));
+                }
+            }
+            LifeStep::Forget(sel) => {
+                let j = ids[(*sel as usize * n) >> 16];
+                router.remove_peer(ReplicaId::new(j));
+                if known.remove(&j) {
+                    changed_since_route = true;
+                }
+                trace.push(format!("remove_peer({})", j));
+            }
+            LifeStep::Route(ks) => {
+                let batch: Vec<(String, u32)> = ks
+                    .iter()
+                    .map(|&i| {
+                        tag += 1;
+                        (key_at((i as u32 * 5461) as u16).to_string(), tag * 8)
+                    })
+                    .collect();
+                let deltas: Vec<ReplicationDelta> = batch.iter().map(|(k, t)| mk_delta(k, *t, sender, &ring_v, &ids)).collect();
+                let mut want = expected_deliveries(&ring_v, sender, &batch);
+                want.retain(|t, _| known.contains(t));
+                let got = table_deliveries(&router.route_deltas(deltas))?;
+                trace.push(format!("route {:?}", batch.iter().map(|(k, _)| k.as_str()).collect::<Vec<_>>()));
+                if got != want {
+                    return Err(format!(
+                        "long-lived GossipRouter of node {} ({}; membership {:?}, vnodes {}, rf {}): after [{}] the routing table differs from get_replicas(key) minus sender, restricted to the peers whose address is known now {:?}.\n    expected:{}\n    routing table:{}",
+                        sender,
+                        if member_sender { "a ring member" } else { "NOT a ring member" },
+                        ids, c.vnodes, c.rf,
+                        trace.join("; "),
+                        known,
+                        show_deliveries(&want),
+                        show_deliveries(&got)
+                    ));
+                }
+                if changed_since_route && batch.iter().any(|(k, _)| routed_before.contains(k)) {
+                    ctx.label("key_routed_again_after_a_peer_change");
+                }
+                changed_since_route = false;
+                for (k, _) in &batch {
+                    routed_before.insert(k.clone());
+                }
+                evals += batch.len() as u64;
+            }
+        }
+    }
+    ctx.add_evaluations(evals);
+    ctx.label(if member_sender { "sender:ring_member" } else { "sender:outside_the_ring" });
+    if c.rf > 0 && evals > 0 {
+        ctx.nontrivial(c);
+    }
+    Ok(())
+}
+
 fn check_router_case(c: &RouterCase, ctx: &mut CaseCtx<'_>) -> Result<(), String> {
     let ids = dedup(c.ids.clone());
     let n = ids.len();
@@ -1823,6 +1971,12 @@ fn main() {
         "GossipRouter::new(full peer map, selective) for every member as sender: route_deltas / route_with_stats / GossipState::with_router+queue_deltas+drain_outbound deliver each delta to get_replicas(key) minus sender exactly once and to nobody else",
     );
     s.run_cases("router_new", s.scale(15_000, 1_000_000), router_case, check_router_case);
+
+    s.describe_check(
+        "router_lifecycle",
+        "one long-lived GossipRouter (selective) per case: built with a generated subset of the members' addresses, for a sender that is a ring member or (1 in 4) a node outside the ring; 2..13 steps over {route a batch from a 12-key space, update_peer, remove_peer} with no ring change: at every routing step each delta goes exactly to get_replicas(key) minus sender minus the owners whose address is unknown at that moment",
+    );
+    s.run_cases("router_lifecycle", s.scale(10_000, 600_000), router_life_case, check_router_life);
 
     s.describe_check(
         "router_from_config",
